@@ -35,7 +35,7 @@ def main():
         demo = wt / "_seed" / seed.name / "demo.py"
         txt = (seed / "demo.py").read_text()
         # demos were written against another scratch path
-        txt = re.sub(r"/tmp/mut2?/C\d\d", str(wt), txt)
+        txt = re.sub(r"/tmp/mut[23]?/C\d\d", str(wt), txt)
         demo.write_text(txt)
         rc0, o0 = run(["/venv/bin/python", str(demo)], wt, env, 1800)
         out["demo_without_patch"] = {"exit": rc0, "tail": o0[-300:]}
